@@ -15,7 +15,9 @@
 mod conv;
 mod eval;
 mod pairs;
+mod names;
 mod pgen;
+mod scopes;
 mod stshapes;
 mod sx;
 mod vconv;
@@ -130,7 +132,12 @@ fn prepare(src: &str, hist: &mut Hist) -> Result<Prepared, String> {
         Ok(m) => m,
         Err(e) => return Err(format!("front end ({}): {}", e.stage(), one_line(&e.text().chars().take(100).collect::<String>()))),
     };
-    let names = ir::name_generator::NameMap::build(&ir, &[], false);
+    // the name map as the HLSL exporter builds it (`GenerateContext::new`: RESERVED_NAMES of hlsl/src/names.rs — a private
+    // table, read from the source tree the harness was built from — and intrinsic names reserved)
+    static RESERVED: std::sync::OnceLock<Vec<String>> = std::sync::OnceLock::new();
+    let reserved = RESERVED.get_or_init(|| crate::c15::reserved_from_source("hlsl"));
+    let reserved_refs: Vec<&str> = reserved.iter().map(|s| s.as_str()).collect();
+    let names = ir::name_generator::NameMap::build(&ir, &reserved_refs, true);
     let mut cv = IrConv::new(&ir);
     let mut prog = Vec::new();
     let mut funcs = Vec::new();
@@ -419,6 +426,17 @@ fn run_program(src: &str, only: Option<(&str, &[Vec<V>])>, nvec: usize, rng: &mu
                         if items.iter().any(|i| i.contains_head("unsupported")) {
                             hist.add("text-unsupported");
                             continue;
+                        }
+                        // C block scoping: every identifier denotes the innermost declaration in scope (scopes.rs)
+                        let items = &match scopes::resolve_module(items) {
+                            Ok(r) => r,
+                            Err(why) => {
+                                fails.push(format!("{}: emitted text: {}", flav, why));
+                                continue;
+                            }
+                        };
+                        if flav == "dx" && scopes::renamed_any(items) {
+                            hist.add("fn:text-with-shadowing-or-reused-names");
                         }
                         let ae = AstEval::new(items);
                         // initial values of the globals must agree as well
@@ -771,6 +789,59 @@ pub fn run(args: &Args, out: &mut Out) {
             if k.starts_with("stmt-attr:") || k == "fn:with-statement-attributes" || k.starts_with("vector:") {
                 for _ in 0..*v {
                     hist.add(&format!("st:{}", k));
+                }
+            }
+        }
+    }
+    // name hygiene (every tier): locals / parameters that the name map must rename next to `<name>_<k>` source names, in
+    // nested scopes, with earlier functions consuming the first indices; then random modules over one small name pool
+    {
+        let grid_text = names::grid_text();
+        let grid = parse_vectors(&grid_text).unwrap_or_default();
+        for (shape, src) in names::stream() {
+            nshapes += 1;
+            let before = out.oracle_fail;
+            let mut arng = Rng::new(1);
+            let mut h2 = Hist::default();
+            if let Err(pn) = guard(|| run_program(&src, Some(("f1", &grid)), grid.len(), &mut arng, out, &mut h2)) {
+                hist.add("harness-panic");
+                out.case(&format!("C01.fn\t{}\tf1\t{}\t-\t-", one_line(&src), grid_text), "harness-panic", &format!("SKIP:harness panic {}", pn));
+            }
+            let kind = shape.split(':').next().unwrap_or("").to_string();
+            hist.add(&format!("nshape:{}", kind));
+            if h2.0.contains_key("skip:front-end") {
+                hist.add(&format!("nshape-rejected-by-front-end:{}", shape));
+            }
+            if h2.0.contains_key("fn:unsupported") {
+                hist.add(&format!("nshape-unsupported:{}", shape));
+            }
+            if h2.0.contains_key("vector:none") {
+                hist.add(&format!("nshape-some-vector-undefined:{}", shape));
+            }
+            if h2.0.contains_key("fn:text-with-shadowing-or-reused-names") {
+                hist.add("nshape:text-with-shadowing-or-reused-names");
+            }
+            if out.oracle_fail > before {
+                hist.add(&format!("nshape-oracle-fail:{}", shape));
+            }
+        }
+        let nm = if args.n.is_some() { n } else if args.thorough() { 3000 } else { 200 };
+        let mut nrng = Rng::new(args.seed ^ 0x4a3e_5eed);
+        for _ in 0..nm {
+            let mut prng = nrng.fork();
+            let src = names::random_module(&mut prng);
+            let mut arng = nrng.fork();
+            let mut h2 = Hist::default();
+            if let Err(pn) = guard(|| run_program(&src, None, 4, &mut arng, out, &mut h2)) {
+                hist.add("harness-panic");
+                out.case(&format!("C01.fn\t{}\t-\t\t-\t-", one_line(&src)), "harness-panic", &format!("SKIP:harness panic {}", pn));
+            }
+            hist.add("nmodule");
+            for (k, v) in &h2.0 {
+                if k == "skip:front-end" || k.starts_with("fn:") || k.starts_with("vector:") || k.starts_with("text-") {
+                    for _ in 0..*v {
+                        hist.add(&format!("nm:{}", k));
+                    }
                 }
             }
         }
